@@ -18,7 +18,7 @@ func init() { register(c20{}) }
 // The bound, fixed here as specification constants (not derived from the code):
 // over every prefix of a history, bytes allocated <= c20K * (input bytes) + c20C * (calls).
 const (
-	c20K = 1024      // bytes allocated per input byte
+	c20K = 1024     // bytes allocated per input byte
 	c20C = 4 * 1024 // bytes per call
 )
 
@@ -32,7 +32,7 @@ func (c20) Budget(tier string) (int, int) {
 	return 12000, 90
 }
 func (c20) Rule() string {
-	return fmt.Sprintf("seeded histories on one ValueReader and one Buffer (plus fresh ones): validate / skip / traverse / generically decode documents of adversarial shape - one huge container (object or array) at any depth followed by n small siblings of either kind, escaped strings and keys at every nesting level and in every child, deep nesting (to 10,000), megabyte strings, wide scalar arrays, generated trees up to 400 KB - each shape at growing sizes (x1, x10, x100: a super-linear term crosses the bound at the smallest size that shows it), and 'one large document, then up to 20,000 small ones' (succeeding, failing, typed entry points on null) on the same reader. Failing calls (truncated, overflow, 10,001+ deep) sit between the others. Pool policy: hit whenever possible, eviction only between top-level calls. Measure: runtime.MemStats.TotalAlloc around each call at GOMAXPROCS=1. Oracles: (1) at every prefix of the history, allocated <= %d B x input bytes + %d B x calls; (2) for one shape at sizes x1/x10/x100, bytes allocated per input byte at one size must not exceed 2x the figure at the previous size + 32 (checked when the step allocates > 1 MiB): a super-linear term with a small coefficient shows as growth of the per-byte cost long before it crosses an absolute bound. Non-trivial: the history has >= 2 calls on the shared reader/buffer or a document >= 10 KB; distinct = distinct hashes of (operation, shape, size class, outcome) sequences.", c20K, c20C)
+	return fmt.Sprintf("seeded histories on one ValueReader and one Buffer (plus fresh ones): validate / skip / traverse / generically decode documents of adversarial shape - one huge container (object or array) at any depth followed by n small siblings of either kind, escaped strings and keys at every nesting level and in every child, deep nesting (to 10,000), megabyte strings, wide scalar arrays, generated trees up to 400 KB - each shape at growing sizes (x1, x10, x100: a super-linear term crosses the bound at the smallest size that shows it), and 'one large document, then up to 20,000 small ones' (succeeding, failing, typed entry points on null) on the same reader. Failing calls (truncated, overflow, 10,001+ deep) sit between the others. A document may also be decoded the handler way (operation TraverseDecodeMembers: traverse the root container, decode every member with the long-lived reader and return its offset; the input is the document once, every library call counts as a call). Pool policy: hit whenever possible, eviction only between top-level calls. Measure: runtime.MemStats.TotalAlloc around each call at GOMAXPROCS=1. Oracles: (1) at every prefix of the history, allocated <= %d B x input bytes + %d B x calls; (2) for one shape at sizes x1/x10/x100, bytes allocated per input byte at one size must not exceed 2x the figure at the previous size + 32 (checked when the step allocates > 1 MiB): a super-linear term with a small coefficient shows as growth of the per-byte cost long before it crosses an absolute bound. Non-trivial: the history has >= 2 calls on the shared reader/buffer or a document >= 10 KB; distinct = distinct hashes of (operation, shape, size class, outcome) sequences.", c20K, c20C)
 }
 func (c20) Assumptions() []string {
 	return []string{
@@ -42,7 +42,7 @@ func (c20) Assumptions() []string {
 	}
 }
 func (c20) Required(tier string) []string {
-	return []string{"shape-big-then-small-siblings", "shape-escapes-every-level", "shape-deep", "shape-escaped-children", "shape-large-tree", "history-large-then-many-small", "history-failing-small-docs", "A-abort", "P-evict", "doc>=100KB", "reused-buffer", "reused-reader", "history-deep-then-tiny-on-one-buffer", "scaling-step-checked", "shape-deep-uncapped"}
+	return []string{"shape-big-then-small-siblings", "shape-escapes-every-level", "shape-deep", "shape-escaped-children", "shape-large-tree", "history-large-then-many-small", "history-failing-small-docs", "A-abort", "P-evict", "doc>=100KB", "reused-buffer", "reused-reader", "history-deep-then-tiny-on-one-buffer", "scaling-step-checked", "shape-deep-uncapped", "document-decoded-member-by-member-in-a-traversal", "shape-records"}
 }
 
 func repeatStr(s string, n int) []byte { return bytes.Repeat([]byte(s), n) }
@@ -171,6 +171,21 @@ func c20Shape(r *Rand, shape, size int) Doc {
 			b.WriteString("1],[]]")
 		}
 		return docOf(b.Bytes(), "shape-big-then-small-siblings")
+	case 10: // many small records: what a handler decodes member by member
+		unit := []string{`{"id":7},`, `{},`, `{"a":{"b":[]}},`, `[1,2],`, `{"name":"x\ny","v":[1.5]},`}[r.Intn(5)]
+		n := size / len(unit)
+		if n < 1 {
+			n = 1
+		}
+		if r.Chance(1, 2) {
+			return docRep("shape-records", "[", 1, unit, n, "0]", 1)
+		}
+		b.WriteString("{")
+		for i := 0; i < n; i++ {
+			fmt.Fprintf(&b, `"m%d":%s`, i, unit)
+		}
+		b.WriteString(`"z":0}`)
+		return docOf(b.Bytes(), "shape-records")
 	case 9: // nesting far beyond 10,000: only the traversal functions' embedded skippers accept it
 		d := size / 2
 		if d < 1 {
@@ -236,10 +251,13 @@ func (c20) Gen(r *Rand, sc *Scenario, tier string) {
 		}
 		sc.Cfg["deep-then-tiny-on-one-buffer"] = 1
 	case 0: // one shape at growing sizes
-		shape := r.Intn(10)
+		shape := r.Intn(11)
 		kind := pickKind()
 		if shape == 9 {
 			kind = "HandleArrayValues"
+		}
+		if shape == 10 {
+			kind = "TraverseDecodeMembers"
 		}
 		base := r.Range(300, 4000)
 		sc.Cfg["growing"] = 1
@@ -276,6 +294,11 @@ func (c20) Gen(r *Rand, sc *Scenario, tier string) {
 		n := r.Range(2, 8)
 		for i := 0; i < n; i++ {
 			size := []int{200, 3000, 30000, maxSize}[r.Pick(3, 3, 2, 1)]
+			if r.Chance(1, 6) {
+				// a document decoded the handler way: traversal, every member through the reused reader
+				add(c20Shape(r, []int{10, 10, 0, 1, 7}[r.Intn(5)], size), "TraverseDecodeMembers", 1)
+				continue
+			}
 			d := c20Shape(r, r.Intn(9), size)
 			if r.Chance(1, 5) {
 				// failing variants: truncated, overflow at the end, too deep
@@ -358,9 +381,26 @@ func (c20) Exec(sc *Scenario, st *Stats) *Violation {
 			}
 		}
 		ok := false
+		extraCalls := 0
 		call := func() {
 			var err error
 			switch op.Kind {
+			case "TraverseDecodeMembers":
+				// the documented composition: traverse the root container, decode every member with the
+				// long-lived reader (ReadObject / ReadArray / ReadValue by token type), return its offset.
+				// The input is the document, once; every library call counts as a call.
+				md := &memberDecoder{vr: reader}
+				tt, _, terr := rjson.NextTokenType(data)
+				switch {
+				case terr != nil:
+					err = terr
+				case tt == rjson.ObjectStartType:
+					_, err = rjson.HandleObjectValues(data, md, b)
+				default:
+					_, err = rjson.HandleArrayValues(data, md, b)
+				}
+				extraCalls = md.calls
+				st.probe("document-decoded-member-by-member-in-a-traversal")
 			case "VR.ReadValue":
 				_, _, err = reader.ReadValue(data)
 			case "VR.ReadObject":
@@ -424,7 +464,7 @@ func (c20) Exec(sc *Scenario, st *Stats) *Violation {
 			delta := m1.TotalAlloc - m0.TotalAlloc
 			totalAlloc += delta
 			totalIn += uint64(len(data)) * uint64(n)
-			calls += uint64(n)
+			calls += uint64(n) + uint64(extraCalls)
 			if !ok {
 				st.fault("A-abort")
 				if d.Class == "small-after-large" {
@@ -459,6 +499,32 @@ func (c20) Exec(sc *Scenario, st *Stats) *Violation {
 	}
 	return nil
 }
+
+// memberDecoder decodes every member of a traversed container with one long-lived ValueReader.
+type memberDecoder struct {
+	vr    *rjson.ValueReader
+	calls int
+}
+
+func (m *memberDecoder) member(data []byte) (int, error) {
+	m.calls++
+	tt, _, err := rjson.NextTokenType(data)
+	if err != nil {
+		return 0, err
+	}
+	switch tt {
+	case rjson.ObjectStartType:
+		_, p, err := m.vr.ReadObject(data)
+		return p, err
+	case rjson.ArrayStartType:
+		_, p, err := m.vr.ReadArray(data)
+		return p, err
+	}
+	_, p, err := m.vr.ReadValue(data)
+	return p, err
+}
+func (m *memberDecoder) HandleArrayValue(data []byte) (int, error)     { return m.member(data) }
+func (m *memberDecoder) HandleObjectValue(_, data []byte) (int, error) { return m.member(data) }
 
 var errNotValid = fmt.Errorf("not valid")
 
